@@ -33,6 +33,8 @@ def run(ctx):
     D.rule_accept_guard(res, "C05-R5", m)
     D.rule_deliver_release(res, "C05-R6", m)
     D.rule_reject_reasons(res, "C05-R7", m)
+    from rules import c03
+    c03.rule_message_validator_exact(fb, res, "C05-R7", "message-validator:")  # a segment the message validator rejects never reaches addSegment
     n8 = D.rule_segment_ends_walk(res, "C05-R8", m)
     D.rule_segment_plumbing(res, "C05-R9", m)
     res.floor("C05-R8", 3, n8)
